@@ -110,6 +110,8 @@ func (o BOp) String() string {
 		return fmt.Sprintf("order%s(%s,%s)", o.Chain, o.Amt, o.Req)
 	case "pair":
 		return fmt.Sprintf("orders%s(large/at+large/above)", o.Chain)
+	case "pair2":
+		return fmt.Sprintf("orders%s(large/half+large/half)", o.Chain)
 	case "deposit":
 		if o.Amt != "" {
 			return fmt.Sprintf("deposit%s(%s,%s)", o.Chain, who, o.Amt)
@@ -138,6 +140,10 @@ func BAlphabet(thorough bool) []BOp {
 		{Kind: "withdraw", Chain: "N", Who: kP, Pct: 100},
 		{Kind: "withdraw", Chain: "R", Who: kP, Pct: 50},
 		{Kind: "withdraw", Chain: "R", Who: kP, Pct: 100},
+		// two orders in one block that BOTH clear their limit (half of the quoted amount): offered only in the small-capacity
+		// build, where a batch settles one order per block (lib.MaxOrdersSettledPerBlock overlaid to 1)
+		{Kind: "pair2", Chain: "N"},
+		{Kind: "pair2", Chain: "R"},
 	}
 	if thorough {
 		a = append(a,
@@ -489,6 +495,8 @@ func (w *bWorld) userTxs(op BOp, sr, sn *bScan) []bUserTx {
 			}
 		case "above":
 			req++
+		case "half":
+			req = req / 2
 		}
 		if req == 0 {
 			req = 1
@@ -502,6 +510,8 @@ func (w *bWorld) userTxs(op BOp, sr, sn *bScan) []bUserTx {
 		return []bUserTx{mk(kA, op.Amt, op.Req)}
 	case "pair":
 		return []bUserTx{mk(kA, "large", "at"), mk(kA, "large", "above")}
+	case "pair2":
+		return []bUserTx{mk(kA, "large", "half"), mk(kA, "large", "half")}
 	case "deposit":
 		amts := []uint64{large}
 		switch op.Amt {
